@@ -95,6 +95,7 @@ class C12(Engine):
     prop = "C12"
     title = "failure is atomic"
     quick_budget = 45
+    quick_runs = 14000
     thorough_budget = 900
     rule = ("run i = history of 3-8 operations on one persistent SimFs workspace (set valid source from the 45-CPU corpus with "
             "labels/.db/macros/.if/.include; single-point corruption of %d kinds x %d placements; plant stale output; assemble with "
